@@ -4,7 +4,14 @@ use vstd::prelude::*;
 verus! {
 //@include disp_vocab.rs
 // ---- context shells (D5) ----
-#[verifier::external_body] pub struct Worksheet { _o: u8 }
+#[verifier::external_body] pub struct WorksheetRest { _o: u8 }
+#[verifier::external_body] pub struct Link { _o: u8 }
+#[verifier::external_body] pub struct LinkMap { _o: u8 }
+impl LinkMap {
+    #[verifier::external_body] pub fn insert(&mut self, k: (i32, i32), v: Link) -> Option<Link> { unimplemented!() }
+    #[verifier::external_body] pub fn remove(&mut self, k: &(i32, i32)) -> Option<Link> { unimplemented!() }
+}
+pub struct Worksheet { pub links: LinkMap, pub rest: WorksheetRest }
 #[verifier::external_body] pub struct WorkbookRest { _o: u8 }
 #[verifier::external_body] pub struct ModelRest { _o: u8 }
 pub struct Workbook { pub rest: WorkbookRest }
@@ -81,7 +88,7 @@ pub fn move_cell_recreate(&mut self, sheet: u32, target_row: i32, target_column:
     // (re-entry through set_user_input / set_user_array_formula adjusts the target's style — number formats inferred from the formula,
     // the row or column style of the new position — so it must not be the last word on the moved cell's style); then the source is removed
 pub fn move_cell_recreate_and_style(&mut self, sheet: u32, source_row: i32, source_column: i32, target_row: i32, target_column: i32, style: i32,
-                                    array: Option<(i32, i32)>, formula_or_value: String) -> (r: Result<(), String>)
+                                    array: Option<(i32, i32)>, formula_or_value: String, target_link: Option<Link>) -> (r: Result<(), String>)
     requires array.is_some() ==> array.unwrap() == (g_arr_w(), g_arr_h())
 {
     let ghost mut entered: bool = false;
